@@ -21,7 +21,7 @@ use ordered_float::OrderedFloat;
 use write_fonts::{OtRound, types::GlyphId16};
 
 use crate::{
-    error::{BadGlyph, Error},
+    error::{BadGlyph, BadGlyphKind, Error},
     ir::{Component, Glyph, GlyphBuilder, GlyphInstance, GlyphOrder, StaticMetadata},
     orchestration::{Context, Flags, IrWork, WorkId},
     propagate_anchors::propagate_all_anchors,
@@ -253,6 +253,55 @@ fn prune_missing_components(context: &Context) {
         }
         context.glyphs.set(new_glyph);
     }
+}
+
+/// Fail if any glyph uses itself as a component, directly or through other glyphs.
+///
+/// Such a source is malformed; without this check later passes recurse or spin
+/// forever (or overflow the stack) instead of reporting anything.
+fn reject_component_cycles(context: &Context) -> Result<(), BadGlyph> {
+    let glyphs = context.glyphs.all();
+    let graph: HashMap<&GlyphName, BTreeSet<&GlyphName>> = glyphs
+        .iter()
+        .map(|(_, glyph)| (&glyph.name, glyph.component_names().collect()))
+        .collect();
+
+    // iterative depth first search; `done` never needs revisiting, `path` is the
+    // current chain of glyphs and what is left to look at for each of them
+    let mut names = graph.keys().copied().collect::<Vec<_>>();
+    names.sort(); // report the same cycle every time
+    let mut done: HashSet<&GlyphName> = HashSet::new();
+    for start in names {
+        if done.contains(start) {
+            continue;
+        }
+        let mut path: Vec<(&GlyphName, Vec<&GlyphName>)> =
+            vec![(start, graph[start].iter().copied().collect())];
+        while let Some((current, todo)) = path.last_mut() {
+            let Some(next) = todo.pop() else {
+                done.insert(current);
+                path.pop();
+                continue;
+            };
+            if done.contains(next) {
+                continue;
+            }
+            if let Some(pos) = path.iter().position(|(name, _)| *name == next) {
+                let mut cycle: Vec<GlyphName> =
+                    path[pos..].iter().map(|(name, _)| (*name).clone()).collect();
+                cycle.push(next.clone());
+                return Err(BadGlyph::new(
+                    next.clone(),
+                    BadGlyphKind::ComponentCycle(cycle),
+                ));
+            }
+            // components that do not exist were pruned (and warned about) above
+            if let Some(components) = graph.get(next) {
+                path.push((next, components.iter().copied().collect()));
+            }
+        }
+    }
+    Ok(())
 }
 
 /// Equivalent to 'SkipExportGlyphsFilter' in pythonland:
@@ -828,6 +877,10 @@ impl Work<Context, WorkId, Error> for GlyphOrderWork {
         // missing component can't cause its glyph (or its siblings) to be
         // decomposed. See https://github.com/googlefonts/fontc/issues/1858
         prune_missing_components(context);
+
+        // Everything below (and much of the backend) walks the component graph
+        // assuming it is acyclic; a glyph that contains itself cannot be drawn.
+        reject_component_cycles(context)?;
 
         // Propagate anchors from components to composites (if enabled)
         // This must happen BEFORE flattening non-export components, because after
